@@ -133,7 +133,13 @@ fn worker(id: &str, tier: &str, shard: &str, n: &str, outfile: &str) -> i32 {
     let mut out = Out::default();
     for u in 0..units {
         if (u + rot) % n == shard {
-            (p.run_unit)(tier, u, &mut out);
+            // a panic that escapes a unit (the subject panicked where the unit did not expect
+            // it) is a result of that unit, not the end of the worker
+            let r = std::panic::catch_unwind(std::panic::AssertUnwindSafe(|| (p.run_unit)(tier, u, &mut out)));
+            if r.is_err() {
+                let m = fxv::LAST_PANIC.with(|x| x.borrow_mut().take()).unwrap_or_default();
+                out.violation(fxv::report::Violation::new("panic", format!("escaped-from-unit{u}"), format!("a panic escaped unit {u}: {m}"), serde_json::json!({"unit": u, "escaped": true})));
+            }
         }
     }
     std::fs::write(outfile, out.to_json().to_string()).expect("write worker result");
